@@ -2326,6 +2326,21 @@ def run(ck: core.Check):
             public_neighbours_oracle(ck, env, stats)
         except Exception as e:  # noqa: BLE001
             ck.broken("correspondence", "public tensor/type oracle not observable", f"{type(e).__name__}: {e}")
+        try:
+            from harness import lib_attrhistory
+
+            hist = lib_attrhistory.run_c11(ck, env, stats, rng=ck.rng)
+            ck.count(("attr-history", stats.get("attr_history", {}).get("steps")))
+            for k, what, doc in hist[:12]:
+                ck.failure(k, what, doc)
+        except Exception as e:  # noqa: BLE001
+            ck.broken("correspondence", "attribute histories (lib_attrhistory) not observable", f"{type(e).__name__}: {e}")
+        try:
+            from harness import lib_c11schemas
+
+            lib_c11schemas.run(ck, env, stats)
+        except Exception as e:  # noqa: BLE001
+            ck.broken("correspondence", "schema lookup (lib_c11schemas) not observable", f"{type(e).__name__}: {e}")
     reqs, req_meta = [], []
     if env is not None:
         try:
@@ -2421,6 +2436,14 @@ def replay(ck: core.Check, doc) -> bool:
         print("outcome:", r["status"], r.get("err"), str(r.get("proto")).replace("\n", " ")[:300])
         if r["status"] != "unobservable":
             verdicts += SP.judge(env, mid, op, schema, c["case"], r["status"], r["mro"], r["err"], r["proto"])
+    if c.get("kind") == "attr-history":
+        from harness import lib_attrhistory
+
+        verdicts += [(k, w) for k, w, _ in lib_attrhistory.run_c11(None, env, {}, steps=c["case"]["steps"])]
+    if c.get("kind") == "schema-lookup":
+        from harness import lib_c11schemas
+
+        verdicts += lib_c11schemas.lookup_verdicts(env, mid, domain, version, op, cls)
     if c.get("kind") == "public-neighbour":
         verdicts += neighbour_case(env, mid, mod, env.schemas(domain, version), c["case"])
     if c.get("kind") == "inspell" and fn is not None:
